@@ -5,6 +5,7 @@ import OxiVerif.Lemmas.C07A85
 import OxiVerif.Lemmas.C07Chain
 import OxiVerif.Lemmas.C07Flate
 import OxiVerif.Lemmas.C07Tiff
+import OxiVerif.Lemmas.C07Lzw
 import OxiVerif.Model.C07Ccitt
 /-!
 C07 — every supported stream filter decodes exactly what a reference encoder encoded.
@@ -316,31 +317,57 @@ theorem C07_witness_ccitt_g4_is_a_stub :
 
 /-! ## 5d. LZWDecode -/
 
-/- FULL: lzwDec L ec (lzwEnc ec clearAt b) = .ok b   for both EarlyChange values, every Clear policy,
-   every byte string.  NOT PROVED (bit packing, dictionary lag incl. KwKwK, synchronised width
-   schedule were not reached in the time box) — the correspondence run covers it (docs/C07.md).
-   What is proved: whenever the LZW stage itself round-trips on the predictor-encoded rows, the
-   predictor post-processing of `apply_filter_with_params` returns the image. -/
-theorem C07_lzw_png_compose_partial (E : Ext) (enc : List Nat → List Nat) (pred columns colors bpc : Nat) (d : Dict)
+/-- **LZW round trip**: `decode_lzw_with_limit` inverts the reference encoder (ISO 32000-1 §7.4.4: Clear
+first, greedy matching on a 4096-entry table, EOD last) for BOTH EarlyChange values, EVERY Clear policy
+(`clearAt` = the table size at which the encoder issues Clear; 0 = never, the table stays full), every
+byte string and every limit it fits in.  Proof (Lemmas/C07LzwBits.lean, Lemmas/C07Lzw.lean): (1) the bit
+reader reads back what the packer wrote; (2) the decoder's table lags the encoder's by exactly one
+entry, including the "code = next entry" (KwKwK) case; (3) both sides switch the code width at the
+same code (`(1 << w) - 1` / `1 << w`), after Clear and with a full table. -/
+theorem C07_lzw_roundtrip (L : Nat) (early : Bool) (clearAt : Nat) (b : List Nat) (hb : Bytes b)
+    (hL : b.length ≤ L) : lzwDec L early (lzwEnc early clearAt b) = .ok b :=
+  lzwDec_lzwEnc L early clearAt b hb hL
+
+example : lzwDec 6 false (lzwEnc false 4096 [97, 98, 97, 98, 97, 98]) = .ok [97, 98, 97, 98, 97, 98] :=
+  C07_lzw_roundtrip 6 false 4096 _ (by decide) (by decide)
+
+/-- the `EarlyChange` entry the decoder reads selects the encoder's variant -/
+theorem C07_lzw_stage_roundtrip (E : Ext) (clearAt : Nat) (p : Option Dict) (hp : NoPredictor p) (b : List Nat)
+    (hb : Bytes b) (hL : b.length ≤ maxDecompressedSize) :
+    applyFilterWithParams E (lzwEnc (earlyChange p) clearAt b) .lzw p = .ok b := by
+  have h := C07_lzw_roundtrip maxDecompressedSize (earlyChange p) clearAt b hb hL
+  unfold applyFilterWithParams
+  cases p with
+  | none => simp [h, Res.bind]
+  | some d =>
+    have := hp d rfl
+    simp [h, this, Res.bind]
+
+/-- **LZW + PNG predictor**: every /Predictor 10–15, geometry, per-row filter types, EarlyChange value
+and Clear policy -/
+theorem C07_lzw_png_roundtrip (E : Ext) (clearAt pred columns colors bpc : Nat) (d : Dict)
     (hpd : d.predictor = .int pred) (hp : 10 ≤ pred ∧ pred ≤ 15)
     (hc : d.columns = .int columns) (hk : d.colors = .int colors) (hb : d.bpc = .int bpc)
     (hpos : 0 < rowBytes columns colors bpc) (hfit : columns * colors * bpc + 7 < two64)
     (types : List Nat) (ht : ∀ t ∈ types, t ≤ 4) (k : Nat) (data : List Nat)
     (hl : data.length = k * rowBytes columns colors bpc) (hbytes : Bytes data)
-    (hlzw : lzwDec maxDecompressedSize (earlyChange (some d))
-      (enc (pngEnc (rowBytes columns colors bpc) (pngBpp colors bpc) types data)) =
-        .ok (pngEnc (rowBytes columns colors bpc) (pngBpp colors bpc) types data)) :
-    applyFilterWithParams E (enc (pngEnc (rowBytes columns colors bpc) (pngBpp colors bpc) types data)) .lzw (some d)
-      = .ok data := by
+    (hpb : Bytes (pngEnc (rowBytes columns colors bpc) (pngBpp colors bpc) types data))
+    (hL : (pngEnc (rowBytes columns colors bpc) (pngBpp colors bpc) types data).length ≤ maxDecompressedSize) :
+    applyFilterWithParams E
+      (lzwEnc (earlyChange (some d)) clearAt (pngEnc (rowBytes columns colors bpc) (pngBpp colors bpc) types data))
+      .lzw (some d) = .ok data := by
+  have hlzw := C07_lzw_roundtrip maxDecompressedSize (earlyChange (some d)) clearAt _ hpb hL
   have hpr := C07_png_predictor_roundtrip pred columns colors bpc d hp hc hk hb hpos hfit types ht k data hl hbytes
   have hu : asU32 (pred : Int) = pred := asU32_ofNat pred (by unfold two32; omega)
   unfold applyFilterWithParams
   simp [hlzw, hpd, PVal.asInt, Res.bind, hu, hpr]
 
-example : applyFilterWithParams ⟨fun _ => .ext 1, fun _ => .ext 1⟩ (lzwEnc true 4096 (pngEnc 2 1 [1] [7, 7])) .lzw
-    (some { predictor := .int 11, columns := .int 2, colors := .int 1, bpc := .int 8 }) = .ok [7, 7] :=
-  C07_lzw_png_compose_partial _ (lzwEnc true 4096) 11 2 1 8 _ rfl (by decide) rfl rfl rfl (by decide) (by decide) [1]
-    (by decide) 1 [7, 7] (by decide) (by decide) (by decide +kernel)
+example (d : Dict) (hd : d = { predictor := .int 11, columns := .int 2, colors := .int 1, bpc := .int 8 }) :
+    applyFilterWithParams ⟨fun _ => .ext 1, fun _ => .ext 1⟩
+      (lzwEnc (earlyChange (some d)) 4096 (pngEnc (rowBytes 2 1 8) (pngBpp 1 8) [1] [7, 7])) .lzw (some d) = .ok [7, 7] := by
+  subst hd
+  exact C07_lzw_png_roundtrip _ 4096 11 2 1 8 _ rfl (by decide) rfl rfl rfl (by decide) (by decide) [1]
+    (by decide) 1 [7, 7] (by decide) (by decide) (by decide) (by decide)
 
 /-! ## 6. Filter chains -/
 
@@ -363,6 +390,8 @@ def hexStage (upper : Bool) (p : Option Dict) : Stage := ⟨.hex, p, fun x => he
 /-- the PDF form: digits and `~>` -/
 def a85Stage (p : Option Dict) : Stage := ⟨.a85, p, fun x => a85Enc x ++ [126, 62]⟩
 def rlStage (p : Option Dict) : Stage := ⟨.rl, p, rlEnc⟩
+/-- LZW without predictor; the encoder variant follows the stage's /EarlyChange -/
+def lzwStage (clearAt : Nat) (p : Option Dict) : Stage := ⟨.lzw, p, lzwEnc (earlyChange p) clearAt⟩
 
 theorem filter_noWs (e : List Nat) (h : ∀ c ∈ e, isPdfWs c = false) : e.filter (fun c => !isPdfWs c) = e := by
   rw [List.filter_eq_self]
@@ -417,6 +446,10 @@ theorem rlStage_roundTrips (E : Ext) (p : Option Dict) : (rlStage p).RoundTrips 
   refine ⟨(by intro h; cases h), fun x hx => ?_⟩
   exact applyFilter_byteFilter E _ .rl p (Or.inr (Or.inr rfl)) x (C07_rl_roundtrip _ x hx.2)
 
+theorem lzwStage_roundTrips (E : Ext) (clearAt : Nat) (p : Option Dict) (hp : NoPredictor p) :
+    (lzwStage clearAt p).RoundTrips E :=
+  ⟨(by intro h; cases h), fun x hx => C07_lzw_stage_roundtrip E clearAt p hp x hx.1 hx.2⟩
+
 /-- **Filter chains compose**: for any list of stages whose decoders invert their encoders, with the
 per-stage `DecodeParms` the decoder looks up (`get_filter_params`) being the stage's own, and every
 stage input within the ceiling, `decode_stream` on the chain-encoded data returns the plaintext.
@@ -445,6 +478,50 @@ theorem C07_chain_hex_a85_rl (E : Ext) (stages : List Stage) (x : List Nat)
   · intro k s hk
     have hs := List.mem_of_getElem? hk
     rcases hst s hs with ⟨u, rfl⟩ | rfl | rfl <;> rfl
+
+/-- Flate stage: stored-block zlib (the proved part of Flate) -/
+def flateStage (block : Nat) (p : Option Dict) : Stage := ⟨.flate, p, zlibStored block⟩
+
+theorem flateStage_roundTrips (block : Nat) (p : Option Dict) (hp : NoPredictor p) :
+    (flateStage block p).RoundTrips inflateExt :=
+  ⟨(by intro h; cases h), fun x hx => C07_flate_stored_roundtrip_partial block x p hp hx.2⟩
+
+/-- **Chains over all five filters**, any length, order and multiplicity, each stage with its own
+`DecodeParms` entry (LZW with either EarlyChange value and any Clear policy, Flate with any stored-block
+size), decoded by `decode_stream` with the Lean inflate plugged in. -/
+theorem C07_chain_five_filters (ps : ParmSpec) (stages : List Stage) (x : List Nat)
+    (hst : ∀ s ∈ stages, (∃ u p, s = hexStage u p) ∨ (∃ p, s = a85Stage p) ∨ (∃ p, s = rlStage p) ∨
+      (∃ c p, NoPredictor p ∧ s = lzwStage c p) ∨ (∃ b p, NoPredictor p ∧ s = flateStage b p))
+    (hp : ∀ k s, stages[k]? = some s → filterParams ps k = s.parms)
+    (hfit : Fits stages x) :
+    decodeStream inflateExt (encodeChain stages x) (.array (stages.map (fun s => some s.name))) ps = .ok x := by
+  refine C07_chain_roundtrip inflateExt ps stages x ?_ hp hfit
+  intro s hs
+  rcases hst s hs with ⟨u, p, rfl⟩ | ⟨p, rfl⟩ | ⟨p, rfl⟩ | ⟨c, p, hn, rfl⟩ | ⟨b, p, hn, rfl⟩
+  · exact hexStage_roundTrips _ u p
+  · exact a85Stage_roundTrips _ p
+  · exact rlStage_roundTrips _ p
+  · exact lzwStage_roundTrips _ c p hn
+  · exact flateStage_roundTrips b p hn
+
+example : decodeStream inflateExt
+    (encodeChain [a85Stage none, lzwStage 4096 (some { early := .int 0 }), flateStage 3 none] [1, 1, 1, 2])
+    (.array [some .a85, some .lzw, some .flate]) (.array [none, some { early := .int 0 }, none]) = .ok [1, 1, 1, 2] := by
+  refine C07_chain_five_filters _ [a85Stage none, lzwStage 4096 (some { early := .int 0 }), flateStage 3 none]
+    [1, 1, 1, 2] ?_ ?_ ?_
+  · intro s hs
+    simp only [List.mem_cons, List.not_mem_nil, or_false] at hs
+    rcases hs with rfl | rfl | rfl
+    · exact Or.inr (Or.inl ⟨none, rfl⟩)
+    · exact Or.inr (Or.inr (Or.inr (Or.inl ⟨4096, _, (fun d h => by cases h; rfl), rfl⟩)))
+    · exact Or.inr (Or.inr (Or.inr (Or.inr ⟨3, none, (fun d h => by cases h), rfl⟩)))
+  · intro k s hk
+    match k, hk with
+    | 0, hk => cases hk; rfl
+    | 1, hk => cases hk; rfl
+    | 2, hk => cases hk; rfl
+    | k + 3, hk => simp at hk
+  · exact ⟨by decide +kernel, by decide +kernel, by decide +kernel, trivial⟩
 
 example : decodeStream noExt' (encodeChain [hexStage true none, rlStage none, a85Stage none] [1, 1, 1, 2])
     (.array [some .hex, some .rl, some .a85]) .none = .ok [1, 1, 1, 2] := by
